@@ -224,10 +224,18 @@ def check_after_run(run, tr, labels, scripted):
 
 
 def add_metric_thresholds(t, fields, lo=0.0, hi=1.0):
+    # thresholds may also name metrics which no trial reports (misspelt, reported late): they must not matter
+    def with_unreported(d):
+        if t.chance(1, 3):
+            d = dict([("never_reported", t.float(lo, hi))] + list(d.items())) if t.bool() else dict(list(d.items()) + [("never_reported", t.float(lo, hi))])
+        return d
+
     if t.chance(1, 5):
-        fields["max_metric_value"] = {"loss": t.float(lo, hi)}
+        fields["max_metric_value"] = with_unreported({"loss": t.float(lo, hi)})
     elif t.chance(1, 5):
-        fields["min_metric_value"] = {"loss": t.float(lo, hi)}
+        fields["min_metric_value"] = with_unreported({"loss": t.float(lo, hi)})
+    elif t.chance(1, 8):
+        fields["max_metric_value" if t.bool() else "min_metric_value"] = {"never_reported": t.float(lo, hi)}
 
 
 def case_sim(t):
